@@ -1735,6 +1735,14 @@ func resolveIndex(v, index reflect.Value, indexAsStr string) (reflect.Value, err
 			if cache, ok = cachedStructsFieldIndex[typ]; !ok {
 				cache = make(map[string][]int)
 				buildCache(typ, cache, nil)
+				// buildCache only follows structs embedded by value; where Go's selector
+				// rules pick another field (one promoted through an embedded pointer at a
+				// shallower depth) or none (ambiguous), leave the name to the slow path
+				for name, index := range cache {
+					if f, ok := typ.FieldByName(name); !ok || !reflect.DeepEqual(f.Index, index) {
+						delete(cache, name)
+					}
+				}
 				cachedStructsFieldIndex[typ] = cache
 			}
 			cachedStructsMutex.Unlock()
